@@ -603,6 +603,125 @@ def f(x, n, b, xs):
     return a - k
   return (h(1), g(2), q(3))
 '''),
+    ('k:try_body_ends_in_return', '''def f(x, n, b, xs):
+  if n > 1:
+    try:
+      if x > 0:
+        raise UErr(x)
+      return ('early', t(1, x))
+    except UErr:
+      t(2, 'handled')
+  t(3, 'after')
+  for e in xs:
+    if e > x:
+      try:
+        if b:
+          raise UErr2(e)
+        return ('loop', e)
+      except UErr2:
+        pass
+    t(4, e)
+  return ('late', n)
+'''),
+    ('k:several_raises_one_handler', '''def f(x, n, b, xs):
+  y = 0
+  tag = 'none'
+  try:
+    if x < 0:
+      tag = 'neg'
+      raise UErr(x)
+    if x > 2:
+      tag = 'big'
+      y = t(1, x)
+      raise UErr(x)
+    if b:
+      tag = 'flag'
+      y = y + 7
+      raise UErr(0)
+    tag = 'ok'
+  except UErr:
+    return (tag, y)
+  for i in range(n):
+    try:
+      if i == x:
+        y = i
+        raise UErr2(i)
+      try:
+        if i == x + 1:
+          y = -i
+          raise UErr2(i)
+      finally:
+        t(2, i)
+    except UErr2:
+      tag = tag + str(y)
+  return (tag, y)
+'''),
+    ('k:positional_only_parameters', '''def f(x, n, b, xs):
+  def clamp(v, lo, hi, /, step=1):
+    if v < lo:
+      v = lo
+    for k in range(step):
+      if v > hi:
+        v = hi
+        lo = lo - 1
+    return (v, lo, hi)
+  def countdown(m, /):
+    r = 0
+    while m > 0:
+      m = m - 2
+      r = r + 1
+    return (r, m)
+  g = lambda p, /, q=2: p * q if p > x else q
+  return (clamp(x, 0, n), clamp(n, x, 2, 2), countdown(n), g(n), g(x, q=3))
+'''),
+    ('k:class_header_reads', '''def f(x, n, b, xs):
+  base = object
+  tag = t(1, 'plain')
+  if b:
+    base = dict
+    tag = 'flagged'
+  def mark(cls):
+    cls.mark = tag
+    return cls
+  deco = mark
+  if n > 1:
+    deco = lambda cls: cls
+  @deco
+  class Record(base):
+    base = None
+    deco = 'attr'
+    tag = n
+  kind = 'list'
+  if x > 0:
+    kind = 'tuple'
+  class Meta(type):
+    def __new__(mcs, name, bases, ns, kind='none'):
+      ns['kind'] = kind
+      return type.__new__(mcs, name, bases, ns)
+  class WithKw(metaclass=Meta, kind=kind):
+    kind = 'own'
+  return (Record.__mro__[1].__name__, getattr(Record, 'mark', 'unmarked'), Record.tag, WithKw.kind)
+'''),
+    ('k:loop_local_rebound_in_nested_block', '''def f(x, n, b, xs):
+  tmp = n * 2
+  s = tmp
+  for i in range(n):
+    if i > x:
+      tmp = i
+    else:
+      tmp = -i
+    tmp = tmp * 2
+    s = s + tmp
+  step = 5
+  w = 0
+  while w < n:
+    w = w + 1
+    for step in range(w):
+      s = s + step
+    step = w
+    s = s - step
+  return s
+'''),
     ('k:delete_and_rebind', '''def f(x, n, b, xs):
   a = 1
   c = 2
